@@ -151,6 +151,21 @@ def run(ctx):
                     elif before[0] == 'val' and f2[0] == 'val' and before[1][0] == 'i' and f2[1] != ('i', before[1][1] + 1):
                         ctx.violation("oracle", f"after a failing call that bumped {m}'s state ({before[1]} -> +1) a new importer sees {f2[1]}: not the one shared instance",
                                       {"op": "shared", "modules": files, "history": history})
+            if not cyclic:
+                # … also when the FIRST load of the module happens in the call that then fails (fresh interpreter, same module files)
+                s2 = session.ImplSession(files, explicit_env=(g % 2 == 1))
+                try:
+                    m = names[-1]
+                    f1, p1, _ = s2.run(f"require {m}; {m}->bump(); error 'after the first load'")
+                    f2, p2, _ = s2.run(f"require {m} as Again_; Again_->peek()")
+                    f3, p3, _ = s2.run(f"require {m} import [bump as b_]; b_()")
+                    ctx.count("failing_call_with_first_load")
+                    if f1[0] == 'rt' and (f"load {m}" in (p2 + p3) or f2[:2] != ('val', ('i', 1)) or f3[:2] != ('val', ('i', 2))):
+                        ctx.violation("oracle", f"module {m} was first loaded by a call that then failed; later requires give {f2[:2]} / {f3[:2]} with output {(p2 + p3)[:60]!r}: "
+                                      "evaluated again or not the one shared instance", {"op": "load-count", "modules": files,
+                                      "history": [f"require {m}; {m}->bump(); error 'after the first load'", f"require {m} as Again_; Again_->peek()"]})
+                finally:
+                    s2.close()
             if cyclic:
                 # a cycle is an error (not a hang), and the same error again
                 o1, _, _ = s.run(f"require {names[0]}")
